@@ -32,7 +32,7 @@ Example c09_examples :
   let ok k := JObj [("data", JObj [("node", JObj [("k", JNum k)])])] in
   query_batch 2 (ABody (Some (JArr [ok "1"; ok "2"; ok "3"]))) = QErr ECount /\
   query_batch 2 (ABody (Some (JArr [ok "1"]))) = QErr ECount /\
-  query_batch 1 (ABody (Some (JArr [JObj []]))) = QErr ENoData /\
+  query_batch 1 (ABody (Some (JArr [JObj []]))) = QErr (EServiceErrors [nodata_error]) /\
   query_batch 2 (ABody (Some (JArr [ok "1"; ok "2"]))) = QOk [[("node", JObj [("k", JNum "1")])]; [("node", JObj [("k", JNum "2")])]].
 Proof. repeat split; reflexivity. Qed.
 
